@@ -195,8 +195,9 @@ func (h *Sources) Walk(pos int) {
 	h.hpos += pos
 
 	switch {
-	case h.hpos < -1:
-		h.hpos = -1
+	case h.hpos < 0:
+		// Walked down past the most recent line: back on the input line.
+		h.restoreLineBuffer()
 		return
 	case h.hpos == 0:
 		h.restoreLineBuffer()
